@@ -73,47 +73,45 @@ func isPolicyTyped(v ssa.Value) bool { return isNamed(v.Type(), twigPath, "Secur
 func (s *sandboxFacts) guardFlow(fn *ssa.Function, name ssa.Value, method string, helpers map[*ssa.Function]int) *boolFlow {
 	fl := &boolFlow{fn: fn, entry: false}
 	fl.edge = func(b *ssa.BasicBlock, i int) bool {
-		v, trueIdx, ok := ifCond(b)
-		if !ok {
-			return false
-		}
-		onTrue := i == trueIdx
-		if _, ok := isSandboxedLoad(v); ok {
-			return !onTrue // not sandboxed
-		}
-		if arg, ok := policyQuery(v, method); ok && sameValue(arg, name) {
-			return onTrue // allowed
-		}
-		if bo, ok := v.(*ssa.BinOp); ok && (bo.Op == token.EQL || bo.Op == token.NEQ) {
-			x, y := bo.X, bo.Y
-			if isNilConst(x) {
-				x, y = y, x
+		return anyEdgeFact(b, i, func(v ssa.Value, trueIdx int) bool {
+			onTrue := i == trueIdx
+			if _, ok := isSandboxedLoad(v); ok {
+				return !onTrue // not sandboxed
 			}
-			if isNilConst(y) {
-				isNil := (bo.Op == token.EQL) == onTrue // edge on which x == nil
-				// no policy configured at all: nothing is forbidden
-				if isPolicyTyped(x) && isNil {
-					return true
+			if arg, ok := policyQuery(v, method); ok && sameValue(arg, name) {
+				return onTrue // allowed
+			}
+			if bo, ok := v.(*ssa.BinOp); ok && (bo.Op == token.EQL || bo.Op == token.NEQ) {
+				x, y := bo.X, bo.Y
+				if isNilConst(x) {
+					x, y = y, x
 				}
-				// err := guardHelper(name); err == nil
-				if c, ok := x.(*ssa.Call); ok && isNil {
-					if g := c.Call.StaticCallee(); g != nil {
-						if pi, ok := helpers[g]; ok && pi < len(c.Call.Args) && sameValue(c.Call.Args[pi], name) {
-							return true
+				if isNilConst(y) {
+					isNil := (bo.Op == token.EQL) == onTrue // edge on which x == nil
+					// no policy configured at all: nothing is forbidden
+					if isPolicyTyped(x) && isNil {
+						return true
+					}
+					// err := guardHelper(name); err == nil
+					if c, ok := x.(*ssa.Call); ok && isNil {
+						if g := c.Call.StaticCallee(); g != nil {
+							if pi, ok := helpers[g]; ok && pi < len(c.Call.Args) && sameValue(c.Call.Args[pi], name) {
+								return true
+							}
 						}
 					}
 				}
 			}
-		}
-		// if guardHelper(name) { … } with a bool result
-		if c, ok := v.(*ssa.Call); ok {
-			if g := c.Call.StaticCallee(); g != nil {
-				if pi, ok := helpers[g]; ok && pi < len(c.Call.Args) && sameValue(c.Call.Args[pi], name) {
-					return onTrue
+			// if guardHelper(name) { … } with a bool result
+			if c, ok := v.(*ssa.Call); ok {
+				if g := c.Call.StaticCallee(); g != nil {
+					if pi, ok := helpers[g]; ok && pi < len(c.Call.Args) && sameValue(c.Call.Args[pi], name) {
+						return onTrue
+					}
 				}
 			}
-		}
-		return false
+			return false
+		})
 	}
 	fl.solve()
 	return fl
